@@ -275,7 +275,8 @@ def _gen_table(rd, shape) -> Dict[str, Any]:
     if shape in (0, 1, 2):
         cols.append({"name": "x", "type": "i", "values": [rd.randrange(-5, 20) for _ in range(n)]})
     if shape in (1, 2):
-        cols.append({"name": "g", "type": "s", "values": [rd.choice(["p", "q"]) for _ in range(n)]})
+        gv = ["p", "q"] if rd.random() < 0.7 else ["p", "q", "P", "o'k", "\u00e9", " p", ""]
+        cols.append({"name": "g", "type": "s", "values": [rd.choice(gv) for _ in range(n)]})
     if shape in (2, 3):
         cols.append({"name": "y", "type": "i", "values": [rd.randrange(0, 9) for _ in range(n)]})
     return {"cols": cols}
